@@ -6,35 +6,35 @@ set_option maxHeartbeats 1000000
 namespace CircBuf
 
 /-! ### element access (the result is the slot the reference points at) -/
-theorem tie_front (s : Sys) (h : Inv s.buf)
+maybe theorem tie_front (s : Sys) (h : Inv s.buf)
     (hnd : NonDefect (front? s).1) :
     Gen.front s = front? s := by
   tie3 h hnd [Gen.front, front?]
-theorem tie_front_mut (s : Sys) (h : Inv s.buf)
+maybe theorem tie_front_mut (s : Sys) (h : Inv s.buf)
     (hnd : NonDefect (front? s).1) :
     Gen.front_mut s = front? s := by
   tie3 h hnd [Gen.front_mut, front?]
-theorem tie_back (s : Sys) (h : Inv s.buf)
+maybe theorem tie_back (s : Sys) (h : Inv s.buf)
     (hnd : NonDefect (back? s).1) :
     Gen.back s = back? s := by
   tie3 h hnd [Gen.back, back?]
-theorem tie_back_mut (s : Sys) (h : Inv s.buf)
+maybe theorem tie_back_mut (s : Sys) (h : Inv s.buf)
     (hnd : NonDefect (back? s).1) :
     Gen.back_mut s = back? s := by
   tie3 h hnd [Gen.back_mut, back?]
-theorem tie_get (i : Nat) (s : Sys) (h : Inv s.buf)
+maybe theorem tie_get (i : Nat) (s : Sys) (h : Inv s.buf)
     (hnd : NonDefect (get? i s).1) :
     Gen.get i s = get? i s := by
   tie3 h hnd [Gen.get, get?]
-theorem tie_get_mut (i : Nat) (s : Sys) (h : Inv s.buf)
+maybe theorem tie_get_mut (i : Nat) (s : Sys) (h : Inv s.buf)
     (hnd : NonDefect (get? i s).1) :
     Gen.get_mut i s = get? i s := by
   tie3 h hnd [Gen.get_mut, get?]
-theorem tie_nth_front (i : Nat) (s : Sys) (h : Inv s.buf)
+maybe theorem tie_nth_front (i : Nat) (s : Sys) (h : Inv s.buf)
     (hnd : NonDefect (nthFront? i s).1) :
     Gen.nth_front i s = nthFront? i s := by
   tie3 h hnd [Gen.nth_front, nthFront?]
-theorem tie_nth_back (i : Nat) (s : Sys) (h : Inv s.buf)
+maybe theorem tie_nth_back (i : Nat) (s : Sys) (h : Inv s.buf)
     (hnd : NonDefect (nthBack? i s).1) :
     Gen.nth_back i s = nthBack? i s := by
   tie3 h hnd [Gen.nth_back, nthBack?]
